@@ -13,7 +13,9 @@ Tie    = (1) the environment compiled into the driver is compared, entry by
          (3) a malformed stream (mutated valid tag lists) where both sides must
              fail / succeed alike (error kind, consumed tags, shape of the value);
          (4) synthetic environments (classes built at run time) that reach the
-             branches of the generic code no shipped class uses.
+             branches of the generic code no shipped class uses — one
+             well-formed (oracle applies), one deliberately ill-formed
+             (correspondence only: the model must equal the code there too).
 Oracle = on the implementation alone: decode(encode(v)) == v as canonical value
          trees built by walking the class tables (not dict_contents), nothing
          left over, re-encoding gives the identical octets, octets parse back
@@ -28,8 +30,9 @@ LEVEL = "proof"
 RULE = ("schema-directed: for each constructed type and each of the 58 registered PDUs every presence "
         "pattern of optional elements (2^k for k<=6, pairwise above), every choice alternative, list "
         "lengths 0..3, nesting depth <=4, leaves from boundary payloads per application type, Any as "
-        "random balanced tag runs; plus mutated (malformed) tag lists and synthetic schemas. "
-        "distinct = (stream, type, presence pattern / alternative / list length / error kind)")
+        "random balanced tag runs; plus mutated (malformed) tag lists (9 mutation kinds) and synthetic "
+        "schemas (well-formed and ill-formed). distinct = (stream, type, presence pattern / alternative / "
+        "list length / boundary leaf / error kind); trivial cases are not counted separately")
 TRUSTED = ["lean/BacVerif/Model/Codec.lean is a hand transcription of Sequence/Choice/SequenceOf/ListOf/ArrayOf/"
            "Any/AnyAtomic/NameValue/APCISequence encode+decode; tied by the streams above",
            "translator/c03.py (live introspection -> Gen/Schemas.lean); the compiled table is read back from "
@@ -932,8 +935,8 @@ def run_synthetic(ctx, drv):
                 if not want_wf:
                     ctx.extra["synthetic_types_refused_by_wfEnv"] = bad
             rng = ctx.sub_rng("c03-" + label)
-            run_slice(ctx if want_wf else NoOracle(ctx), drv, _SCHEMA.nodes, 40 if ctx.quick else 1500,
-                      60 if ctx.quick else 2000, rng, prefix=prefix, tag=label)
+            run_slice(ctx if want_wf else NoOracle(ctx), drv, _SCHEMA.nodes, 40 if ctx.quick else 500,
+                      60 if ctx.quick else 700, rng, prefix=prefix, tag=label)
             if want_wf:
                 ctx.extra["synthetic_types"] = [n.name for n in _SCHEMA.nodes]
     finally:
